@@ -24,6 +24,8 @@ type Job struct {
 	Policy   int
 	MaxPaths int
 	MaxSteps int64
+	MaxConc  int      // bound on the values a symbolic index is concretised to (0: 4)
+	RawTerms bool     // no canonicalising rewrites: every obligation goes to the solver as written
 	Covers   []string // cover points that must be reached by some path (vacuity guard)
 	Note     string
 }
@@ -121,13 +123,31 @@ func (p *Pool) runJob(j *Job, solverp **sym.Solver) (r *JobResult) {
 		return r
 	}
 	solver := *solverp
+	if solver.Defs > 200_000 {
+		// z3 never returns the memory of popped definitions: restart it now and then
+		if ns, err := sym.NewSolverT(p.Solver, p.Timeout); err == nil {
+			ns.Queries, ns.Time = solver.Queries, solver.Time
+			solver.Close()
+			solver = ns
+			*solverp = ns
+		}
+	} else if solver.Defs > 0 {
+		solver.HardReset()
+	}
 	q0, st0 := solver.Queries, solver.Time
 	ts := sym.NewStore()
+	ts.Raw = j.RawTerms
 	maxPaths := j.MaxPaths
 	if maxPaths == 0 {
 		maxPaths = 4096
 	}
 	work := [][]interp.Dec{nil}
+	forkSites := map[string]int{}
+	defer func() {
+		if p.Verbose && len(forkSites) > 0 {
+			fmt.Printf("  fork sites of %s: %v\n", j.Key, forkSites)
+		}
+	}()
 	seenF := map[string]bool{}
 	seenI := map[string]bool{}
 	vars := map[string]bool{}
@@ -142,6 +162,10 @@ func (p *Pool) runJob(j *Job, solverp **sym.Solver) (r *JobResult) {
 		st := interp.NewState(p.L.Prog, ts, solver, prefix)
 		st.Params = j.Params
 		st.Policy = j.Policy
+		st.MaxConc = j.MaxConc
+		if p.Verbose {
+			st.ForkSites = forkSites
+		}
 		if j.MaxSteps > 0 {
 			st.MaxSteps = j.MaxSteps
 		}
@@ -197,6 +221,9 @@ func (p *Pool) runJob(j *Job, solverp **sym.Solver) (r *JobResult) {
 				if kind == "budget" || kind == "deadlock" {
 					kind = "hang"
 					label = e.Kind
+				}
+				if kind == "panic" && strings.Contains(label, "verif: cycle budget exceeded") {
+					kind, label = "hang", "cycle-budget"
 				}
 				if kind == "panic" {
 					label = NormLabel(label)
